@@ -252,6 +252,8 @@ func init() {
 				"pure layer: the glue of CalculatePrices (freshness filter -> ValidatorPriceInfo -> CalculatePrice; powerQuorum = LegacyDec(bonded).Mul(quorum).TruncateInt()) is restated in the harness with the same library calls; the world/hist layers execute the real glue",
 				"world layer writes CurrentFeeds and ValidatorPriceLists with the keeper setters (environment input); hist layer writes validator prices only through real MsgSubmitSignalPrices; CurrentFeeds content (interval computation) is not C06's subject",
 				"powers >= 1 (a bonded validator has tokens); price-list timestamps <= now",
+				"\"bonded at the end of the block\": a validator counts iff its x/staking status is Bonded after the evaluated block's own validator-set update (the x/staking end blocker of that block, i.e. the set reported to consensus for this block), with the tokens it has then; the bonded total is the bonded pool after that update. Scenarios L1-L3 change the set in the evaluated block itself (delegation, undelegation, jailing)",
+				"a validator's latest price is its latest ACCEPTED MsgSubmitSignalPrices, stamped with the time of the block that carried it, whether or not it repeats the previous status and price (resub layer)",
 			}
 			r.Required = []string{
 				"status:AVAILABLE", "status:NOT_READY", "status:UNKNOWN_SIGNAL_ID",
@@ -262,6 +264,8 @@ func init() {
 				"median:result-differs-from-unweighted-power-median",
 				"world:AVAILABLE", "world:NOT_READY", "world:UNKNOWN_SIGNAL_ID", "world:unbonded-validator-ignored", "world:inactive-validator-ignored",
 				"hist:AVAILABLE", "hist:NOT_READY", "hist:UNKNOWN_SIGNAL_ID",
+				"resub:AVAILABLE", "resub:NOT_READY", "resub:UNKNOWN_SIGNAL_ID", "resub:same-value-resubmission-counted-after-first-is-stale",
+				"setchange:AVAILABLE", "setchange:NOT_READY", "setchange:UNKNOWN_SIGNAL_ID",
 			}
 			deadline := r.Deadline(8*time.Minute, 45*time.Minute)
 			tally := engine.NewTally()
@@ -335,7 +339,7 @@ func replay(raw json.RawMessage, path []string) (engine.StepResult, []string) {
 		if fp != "" {
 			res.Violate(fp, "%s", detail)
 		}
-	case "world", "hist", kindDiscarded:
+	case "world", "hist", kindDiscarded, kindResub:
 		var c WorldCase
 		if err := json.Unmarshal(raw, &c); err != nil {
 			panic(err)
